@@ -539,6 +539,11 @@ func totalCanonPanic(s string) string {
 // totalErrKind: error class of the parser error types.
 func totalErrKind(err error) string { return totalErrClass(err) }
 
+// totalModelGens: generators of the V streams of the checked-index models that live in their own
+// files (area_total_<group>.go); each registers itself in init() under its group name and is
+// called once per run with the context, its own generator and the seed pool.
+var totalModelGens = map[string]func(c *Ctx, r *Rng, seeds []totalSeed){}
+
 // totalLast holds the measurements of the most recent total.<decoder> execution (the
 // generator runs single-threaded and reads it right after c.Case).
 var totalLast totalOut
@@ -1978,6 +1983,16 @@ func areaTotal(c *Ctx) {
 			emit("coverage", "structured", "gen", totalGenCoverage(r), "")
 			emit("covset", "structured", "gen", totalGenCoverage(r), "")
 		}
+	}
+
+	// 3c. verdict streams of the further checked-index models (harness/area_total_*.go register here)
+	names := make([]string, 0, len(totalModelGens))
+	for n := range totalModelGens {
+		names = append(names, n)
+	}
+	sort.Strings(names)
+	for _, n := range names {
+		totalModelGens[n](c, NewRng(r.U64()), seeds)
 	}
 
 	// 4. mutations
